@@ -268,7 +268,10 @@ def register_lazy(R):
         prop="C19",
         setup=lambda S: dict(self=lazy_obj(S), __ghost__=GHOST),
         returns="int",
-        ensures=["number-of-files :: result == len_(self.swcs)"],
+        # every public method keeps the object invariant: asking for the length reads nothing and changes nothing at all
+        ensures=["number-of-files :: result == len_(self.swcs)",
+                 "asking-for-the-length-requests-nothing :: ncalls('Tree.from_swc') == 0 and ncalls('LazyLoadingTrees.load') == 0 and ncalls('LazyLoadingTrees.__getitem__') == 0"]
+        + frame_lazy("self"),
     )
     R.add(
         f"{POP}:LazyLoadingTrees.__init__",
